@@ -100,6 +100,8 @@ def parse_overlay(text, fname='<overlay>'):
                     f['keep'] += r2.split()
                 elif k2 == 'drop_use':
                     f['drop_use'].append(r2.strip('"'))
+                elif k2 == 'flavours':
+                    f['flavours'] = r2.split()
                 elif k2 == 'extra':
                     f['extra'].append(_dedent(b2))
                 elif k2 == 'item_extra':
